@@ -16,7 +16,7 @@ from checks.common import PoolCheck, delivery_facts, merge, short, jcopy, shrink
 
 ENTRY_POINTS = ('is_valid', 'iter_errors', 'validate', 'decode', 'decode_lax', 'decode_skip', 'pkg_to_dict_skip', 'cli',
                 'pkg_is_valid', 'pkg_iter_errors', 'pkg_validate', 'pkg_to_dict')
-CHANNELS = ('bytes', 'text', 'bytesio', 'stringio', 'raw', 'raw', 'buffered', 'textio', 'duck',
+CHANNELS = ('bytes', 'text', 'bytesio', 'stringio', 'raw', 'raw', 'buffered', 'textio', 'duck', 'openfile', 'openfile_text',
             'path', 'pathobj', 'fileurl', 'http', 'etree', 'element', 'resource', 'resource_stream')
 
 
@@ -363,7 +363,7 @@ def tree_view(res, keep_data=False):
 
 
 def chan_class(ch):
-    if ch in ('raw', 'buffered', 'textio', 'duck', 'resource_stream'):
+    if ch in ('raw', 'buffered', 'textio', 'duck', 'resource_stream', 'openfile', 'openfile_text'):
         return 'stream'
     if ch in ('path', 'pathobj', 'fileurl', 'http'):
         return 'url'
